@@ -198,7 +198,9 @@ def cases(ctx):
         # width slicer: data in half-width units
         for unit in UNITS:
             for ropen in (True, False):
-                for vr in (None, (1, None), (0, 4), (0, 2)):
+                # (maxv + 3, None): a lower range limit at least one width above every observation - no interval
+                # is generated at all (D34: that raised IndexError instead of the RuntimeError for too few intervals)
+                for vr in (None, (1, None), (0, 4), (0, 2)) + (((maxv + 3, None),) if ropen else ()):
                     ci += 1
                     # offset -hi with the range (0, hi): the float range is (-hi*w/2, 0): an upper limit of exactly 0
                     yield dict(kind="width", data=list(v), unit=unit, ropen=ropen, vrange=vr,
